@@ -256,6 +256,13 @@ def install_guard(name: str) -> Any:
         def __contains__(self, item: Any) -> bool:
             res = list.__contains__(self, item)
             EV.append(("G", name, "c", self.owner, interner.tok(item), 1 if res else 0, tid()))
+            if res:
+                # (H1) sampling: was the test answered by a frame that was already on the list when a cached
+                # computation that is still running started?  (a "foreign" frame in the sense of Model/ConcTaint.lean)
+                idx = list.index(self, item)
+                for fname, depths in getattr(_tl, "cstack", ()):
+                    if idx < depths.get(name, 0):
+                        EV.append(("H", fname, name, idx, depths.get(name, 0), 0))
             return res
 
         def append(self, item: Any) -> None:
@@ -285,6 +292,14 @@ def install_guard(name: str) -> Any:
             INSTR_ERR.append(f"{name}.call_args[{k}] not empty at install time")
     func.call_args = new
     return func
+
+
+GUARD_FUNCS: dict[str, Any] = {}
+
+
+def guard_depths() -> dict[str, int]:
+    ident = threading.get_ident()
+    return {g: len(dict.get(f.call_args, ident, ())) for g, f in GUARD_FUNCS.items()}
 
 
 CACHED = [
@@ -336,13 +351,19 @@ def install_memo(modname: str, attr: str, idx: int) -> None:
         else:
             c = cid[1]
         EV.append(("M", fname, "m", c, 0, 0))
+        cs = getattr(_tl, "cstack", None)
+        if cs is None:
+            cs = _tl.cstack = []
+        cs.append((fname, guard_depths()))
         try:
             r = orig_inner(*a, **k)
         except BaseException:
+            cs.pop()
             if synthetic:
                 _tl.depth -= 1
                 EV.append(("M", fname, "e", c, 0, 0))
             raise
+        cs.pop()
         vt = value_token(vals, r)
         EV.append(("M", fname, "f", c, vt, 0))
         if synthetic:
@@ -471,6 +492,9 @@ def install_all() -> list[Any]:
     import poetry.core.version.markers  # noqa: F401
     import poetry.core.version.requirements  # noqa: F401
     guards = [install_guard("intersection"), install_guard("union")]
+    for gname, g in zip(("intersection", "union"), guards):
+        if g is not None:
+            GUARD_FUNCS[gname] = g
     for i, (m, a) in enumerate(CACHED):
         try:
             install_memo(m, a, i)
